@@ -36,9 +36,10 @@ def run(ctx):
              "schedule-independent clauses are evaluated (every live snapshot has fs/work, handed-out mounts exist, "
              "no unmount of a live snapshot, one final Cleanup leaves exactly the live ids)",
         assumptions=[
-            "the Lean model and theorems are sequential: one snapshotter call in flight; that bolt's single "
-            "writer serialises the metadata transactions of concurrent callers (so that interleavings reduce to "
-            "sequences) is NOT proved but probed by the concurrent-callers stream on the implementation",
+            "concurrent callers: the *_concurrent theorems hold for the interleaved model (fresh root, no crash/Close/"
+            "restart inside the run, NoKeyConflict, writer lock = createSnapshot's write transaction + atomic single-step "
+            "write transactions); that the Go code takes bolt's writer lock exactly there is not proved but probed by "
+            "the oracle-only concurrent-callers stream (and is what the seeded read-transaction Cleanup breaks)",
             "mkdir/rename/RemoveAll/bolt commit do not fail and are atomic",
             "an Unmount call ends the backend's mount whatever it returns (fs/fs.go drops the layer first)",
             "NoRestore is only configured while the backend kept its mounts (cmd/containerd-stargz-grpc/main.go); "
